@@ -33,7 +33,7 @@ func (c03) Gen(tier string, seed int64, emit func([]Ev)) {
 	reps := 2
 	steps := 8
 	if tier == "thorough" {
-		reps = 30
+		reps = 120
 		steps = 14
 	}
 	for rep := 0; rep < reps; rep++ {
